@@ -215,3 +215,48 @@ def option_test(cond):
         if m == "is_none":
             return strip_views(term[2][0]), val == 0
     return None, None
+
+
+def drop_blocks(body, local):
+    """Blocks at which the value in `local` (or in a local it was wholly moved into) is dropped: a Drop terminator on
+    it, or a call `core::mem::drop(move local)`."""
+    aliases = {local}
+    for _ in range(4):
+        for i, j, st in body.stmts():
+            if st["k"] == "assign" and "p" not in st["lhs"]:
+                src = st["rv"].get("use", {}).get("move")
+                if src and "p" not in src and src["l"] in aliases:
+                    aliases.add(st["lhs"]["l"])
+    out = []
+    for i, blk in enumerate(body.blocks):
+        t = blk["term"]
+        if t["k"] == "drop" and "p" not in t["place"] and t["place"]["l"] in aliases:
+            out.append(i)
+        elif t["k"] == "call" and t["callee"].get("path") == "core::mem::drop" and t["argv"]:
+            pl = t["argv"][0].get("move")
+            if pl and "p" not in pl and pl["l"] in aliases:
+                out.append(i)
+    return out
+
+
+def dropped_on_all_exits(body, call_bb, drops, max_paths=20000):
+    """Path-sensitive (drop flags constant-folded): on every path through the call at `call_bb` that ends in `return`
+    or `resume`, one of the `drops` blocks occurs after the call. Returns a list of problems (empty = holds)."""
+    t = body.term(call_bb)
+    if not isinstance(t.get("unwind"), int):
+        return ["the call at bb%d unwinds straight out of the function: nothing is dropped on panic" % call_bb]
+    ev = PathEval(body, unwind=True, max_paths=max_paths)
+    problems = set()
+    n = 0
+    for p in ev.run():
+        if p.end not in ("return", "resume") or call_bb not in p.blocks:
+            continue
+        n += 1
+        i = p.blocks.index(call_bb)
+        if not any(b in drops for b in p.blocks[i + 1:]):
+            problems.add("a path ending in %s passes no drop of the guard after the call" % p.end)
+    if ev.truncated:
+        problems.add("path enumeration truncated")
+    if not n:
+        problems.add("no complete path through the call")
+    return sorted(problems)
